@@ -38,12 +38,15 @@ def _inl(inls, c: _C) -> str:
         t = i[0]
         if t == "r":
             w_ = word(i[1])
+            # a blank inside a run: literally, or (every second such run) as the ODF space element, alone
+            sp = " " if i[1] % 2 else ("<text:s/>" if i[1] % 4 == 0 else '<text:s text:c="1"/>')
+            a_, b_ = w_[:4].replace(" ", sp), w_[4:].replace(" ", sp)
             if i[1] % 3 == 0:        # one word split over two spans
-                out.append(f'<text:span text:style-name="T1">{w_[:4]}</text:span><text:span text:style-name="T1">{w_[4:]}</text:span>')
+                out.append(f'<text:span text:style-name="T1">{a_}</text:span><text:span text:style-name="T1">{b_}</text:span>')
             elif i[1] % 3 == 1:      # bare text node
-                out.append(w_)
+                out.append(a_ + b_)
             else:
-                out.append(f'<text:span text:style-name="T1">{w_}</text:span>')
+                out.append(f'<text:span text:style-name="T1">{a_}{b_}</text:span>')
         elif t == "tab":
             out.append("<text:tab/>")
         elif t == "br":
@@ -239,6 +242,12 @@ def write_ods(book: dict) -> bytes:
             shapes = f"<table:shapes>{shapes}</table:shapes>"
         tables += (f'<table:table table:name="{escape(sh["name"], {chr(34): "&quot;"})}">{shapes}<table:table-column/>'
                    f"{rows or '<table:table-row><table:table-cell/></table:table-row>'}</table:table>")
+    if len(book["sheets"]) % 2 == 0 and book["sheets"]:
+        # a cached DDE link: a table:table that is NOT a sheet (it sits in table:dde-links, after the sheets)
+        tables += ('<table:dde-links><table:dde-link><office:dde-source office:dde-application="soffice" '
+                   'office:dde-topic="other.ods" office:dde-item="Sheet1.A1"/><table:table><table:table-column/>'
+                   '<table:table-row><table:table-cell office:value-type="string"><text:p>ddecachevalue</text:p>'
+                   "</table:table-cell></table:table-row></table:table></table:dde-link></table:dde-links>")
     content = (f'<?xml version="1.0" encoding="UTF-8"?><office:document-content {NS}><office:body><office:spreadsheet>'
                f"{tables}</office:spreadsheet></office:body></office:document-content>")
     return _package("ods", content, None, book.get("props"), extra)
